@@ -35,11 +35,18 @@ THEOREMS = [
     "PV.C03.fstring_depth_le_two",
     "PV.C03.fstring_terminates",
     "PV.C03.fstring_err_offset",
+    "PV.C03.lex_terminates",
+    "PV.C03.lex_no_panic",
+    "PV.C03.lex_none_iff_too_long",
+    "PV.C03.lex_err_offset",
+    "PV.C03.offset_arith_u32",
 ]
 TRUSTED = [
     "Lean 4.33.0 kernel; axioms limited to propext, Classical.choice, Quot.sound",
     "hand-written models lean/PV/C03/Escapes.lean (parse_octet, parse_unicode_literal, parse_unicode_name guard, "
-    "f-string nesting skeleton of parser/src/string.rs), tied to the code by the correspondence streams of this run",
+    "f-string nesting skeleton of parser/src/string.rs) and lean/PV/Lexer/{Tok,Model,SoftKw}.lean (lexer.rs, "
+    "soft_keywords.rs; shared with C05), tied to the code by the correspondence streams of this run",
+    "UParams.Sane: the hypothesis on unic_ucd_ident / unic_emoji_char tables under which the lexer theorems hold",
     "the LALRPOP-generated LR automaton and its 1.7k actions (parser/src/python.rs) are NOT modelled: the parser "
     "stage is covered by the direct monitors only (no panic, error offset in [start, start+len] on a char boundary)",
     "wall-clock bound (measured on a doubling ladder and fitted, not proved), native stack depth (measured: about "
@@ -49,16 +56,25 @@ TRUSTED = [
     "lean/Drv/C03.lean",
 ]
 PARTIAL = [
-    "lex_terminates / lex_no_panic / lex_err_offset / offset_arith_u32 over the shared lexer model are pending "
-    "(lean/PV/Lexer/Model.lean not yet published by its builder); the lexer stage is covered by the monitors",
-    "the parser stage (LR driver loop + grammar actions) has no model: monitors only",
-    "time bound and stack depth are measured, not proved",
-    "error offsets produced by string.rs are wrong when the literal contains CRLF (known finding)",
+    "the parser stage (LALRPOP LR driver loop, 1.7k grammar actions, parse_error_from_lalrpop, function.rs validators) "
+    "has no model: it is covered by the direct monitors only",
+    "string.rs: the four kernels are modelled and proved; the f-string scanner is modelled over the symbols { } : x "
+    "(the recursive skeleton), not over its full alphabet (quotes, !, =, ( [ delimiters, escapes)",
+    "lexer theorems assume UParams.Sane (identifier-start characters are identifier characters; CR/LF are not) about "
+    "the external Unicode tables; C05's pre_build checks it on the real tables",
+    "time bound and native stack depth are measured (ladder exponents, depth about 1.0e5 on 8 MiB), not proved",
+    "error offsets produced by string.rs are wrong when the literal contains CRLF, and a token-less expression-mode "
+    "source reports offset 0 (known findings): lex_err_offset holds for the lexer stage, the parser-stage offsets are "
+    "only monitored",
 ]
 READY = True
 TECHNIQUE = ("Lean 4 theorems over hand-written models of the lexer and of the escape/f-string kernels + differential "
              "correspondence with the real crate + direct totality monitors on the real lexer and parser")
-LEVEL_TEXT = ("Machine-checked Lean 4 theorems, for literal bodies of every length: the modelled octal and hex escape "
+LEVEL_TEXT = ("Machine-checked Lean 4 theorems. Lexer (shared model of lexer.rs + soft_keywords.rs), for every text, mode and "
+              "start offset: the token stream ends within length+1 steps, no modelled unwrap/expect/checked subtraction "
+              "fails and location never exceeds start+len (so no u32 overflow when that fits), and a lexical error lies "
+              "at start + the UTF-8 length of a prefix of the source. String literals, for bodies of every length: the "
+              "modelled octal and hex escape "
               "accumulators stay within u32 and within char::from_u32's domain exactly where the code unwraps, the "
               "\\N{..} length guard and every modelled error offset stay inside the literal, and the modelled f-string "
               "scanner terminates with recursion depth at most 2. The models are tied to the Rust code on every run by "
@@ -204,14 +220,25 @@ def _tripped():
 
 
 def canon(req, out):
-    """applied to both answers before they are compared: the model prints float tokens as numeral text.
-    Once the watchdog has tripped (the hangs are already reported as oracle failures) the harness skips
-    every request; the skipped correspondence requests are then not counted as disagreements."""
-    if not req.startswith("lex") and _tripped():
+    """applied to both answers before they are compared.
+    * `lex` lines (the shared lexer model fed with C03's inputs) are projected onto what C03 talks about: does the
+      stream end, does it end in an error and at which byte offset, or does the lexer panic. Token kinds, payloads,
+      spans and error kinds are C05's business: a lexing change that keeps C03 true must not alarm here.
+    * Once the watchdog has tripped (the hangs are already reported as oracle failures) the harness skips every
+      request; the skipped correspondence requests are then not counted as disagreements."""
+    if out is None:
+        return out
+    if req.startswith("lex"):
+        if out.startswith("(panic)"):
+            return "panic"
+        m = re.search(r"\(err \S+ (\d+)\)$", out)
+        if m:
+            return "err " + m.group(1)
+        if out.endswith("(end)"):
+            return "end"
+        return out[-40:]
+    if _tripped():
         return "(skipped)"
-    if req.startswith("lex") and out is not None:
-        import lexcommon
-        return lexcommon.canon_floats(out)
     return out
 
 
@@ -237,6 +264,9 @@ def _refit():
         _FITS[shape] = {
             "rungs": len(rungs),
             "max_bytes": max(rungs),
+            # robust under machine load: CPU time (10 ms resolution, rungs of at least 30 ms)
+            "cpu_exponent": _fit([(n, v["cpu_ms"] * 1000) for n, v in sorted(rungs.items()) if v["cpu_ms"] >= 30]),
+            # wall-clock fits (noisy when the machine is loaded), for information
             "lex_exponent": _fit([(n, v["lex_us"]) for n, v in sorted(rungs.items())]),
             "parse_exponent": _fit([(n, v["parse_us"]) for n, v in sorted(rungs.items())]),
             "lex_us_at_max": rungs[max(rungs)]["lex_us"],
@@ -456,11 +486,6 @@ def _ladder(ctx):
     return reqs
 
 
-def _time_handle_note():
-    return ("doubling ladder 10k..%s bytes per shape; exponent fitted (reported under coverage.timing_ladder); only a "
-            "> 60 s run at >= 1M bytes in the thorough tier is a failure")
-
-
 def _pathological(ctx):
     reqs = []
     depth = [1, 10, 100, 1000, 5000] + ([] if ctx.quick else [20000])
@@ -660,7 +685,7 @@ def _lexmodel_streams(ctx, progs, small):
                       note="every text of length <= 2 over %d symbols and of length 3 over 27 symbols" % len(ALPHABET),
                       nontrivial=lambda r: r.split()[3] != "-"))
     rngl = ctx.rng("lexmodel")
-    nl = 2500 if quick else 60000
+    nl = 2500 if quick else 100000
     reqs = [LX(i, G.mutate(rngl, progs[i % len(progs)])) for i in range(nl)]
     reqs += [LX(i, G.token_soup(rngl)) for i in range(nl)]
     reqs += [LX(i, G.random_unicode(rngl)) for i in range(nl)]
@@ -749,7 +774,7 @@ def streams(ctx):
                       note="grammar-directed generator, all statement/expression forms, LF/CRLF/CR, tabs/spaces, BOM"))
     rngm = ctx.rng("mutations")
     reqs = []
-    per = 4 if quick else 6
+    per = 4 if quick else 10
     for i, p in enumerate(progs):
         for j in range(per):
             reqs.append(_rot(i * per + j, G.mutate(rngm, p)))
@@ -779,12 +804,12 @@ def streams(ctx):
 
     # 6. token soups and random Unicode
     rngt = ctx.rng("soups")
-    reqs = [_rot(i, G.token_soup(rngt)) for i in range(4000 if quick else 200000)]
+    reqs = [_rot(i, G.token_soup(rngt)) for i in range(4000 if quick else 400000)]
     reqs = [r for r in reqs if not _is_blank_expr(r)]
     out.append(Stream("token-soups", reqs, kind="malformed", compare=False,
                       note="random sequences of keywords, operators, names, good and bad numbers/strings, layout"))
     rngu = ctx.rng("unicode")
-    reqs = [_rot(i, G.random_unicode(rngu)) for i in range(4000 if quick else 200000)]
+    reqs = [_rot(i, G.random_unicode(rngu)) for i in range(4000 if quick else 400000)]
     reqs = [r for r in reqs if not _is_blank_expr(r)]
     out.append(Stream("random-unicode", reqs, kind="malformed", compare=False,
                       note="ASCII, controls, NUL, BOM, lone CR, CRLF, combining marks, non-characters, astral planes"))
@@ -841,9 +866,9 @@ def search(ctx, disagreements, bins):
     for e in disagreements[:40]:
         ws = e["request"].split()
         lit = _literal_of(ws)
-        if lit is None and ws[0] == "lex":
+        if lit is None and ws[0] in ("lex", "lexf"):
             try:
-                lit = unhex(ws[-1])
+                lit = unhex(ws[3])
             except ValueError:
                 lit = None
         if lit is None:
